@@ -820,9 +820,15 @@ Section HybridFinal.
   Definition hentry_of (pgs : nat -> pgrads grad) : hentry :=
     fun s => global_grads (fs_grads (hls s) (pgs s)) (fs_nbs nblk (hls s)).
 
+  (* the hypothesis of hybrid_replicas_agree / hybrid_interleaving_irrelevant holds for the code's parameters and EVERY
+     history: the skip rule as repaired (F6) is p_global_skip = true *)
+  Lemma hP_every_history_synchronised (h : list hentry) : hy_no_starvation S hP h.
+  Proof. intros s _. left. reflexivity. Qed.
+
   (* HYBRID = FULLY + DDP.  Any mesh R x S, any num_trainers_per_group gs dividing R, any global shapes (rows may be
      fewer than S), any assignment of each column's blocks to group ranks, any communication rounding `cast`, any
-     per-block computation, any history without starvation: the lock-step run of the whole mesh exists, and every
+     per-block computation, ANY history (the skip rule as repaired, F6: p_global_skip = true in column_params, so starving
+     histories are included): the lock-step run of the whole mesh exists, and every
      rank (i, s) ends with exactly the block values and the step counter of the FullyShard-only optimizer of shard
      coordinate s whose quantity handed to update_params is rounded with `cast` (for FP32 communication of float32
      parameters `cast` is the identity: exactly the FullyShard run), and with that run's state for the blocks it owns. *)
@@ -832,7 +838,6 @@ Section HybridFinal.
     (forall s b, s < S -> b < hnb s -> owner s b < gs) ->
     (forall s, s < S -> length (v0 s) = hnb s /\ length (st0 s) = hnb s) ->
     (forall s, s < S -> Forall (fs_wf_input nblk (hls s)) (map (fun pgs => pgs s) H)) ->
-    hy_no_starvation S hP (map hentry_of H) ->
     exists c, hy_run R S hP (map hentry_of H) (hy_init R S v0 st0 b0) = Some c /\
       forall i s, i < R -> s < S ->
         exists fs,
@@ -842,7 +847,7 @@ Section HybridFinal.
           /\ stepc (cget c (hrank S i s)) = g_step fs
           /\ forall b, b < hnb s -> owns (hP s) i b = true -> nth b (sts (cget c (hrank S i s))) ds = nth b (g_sts fs) ds.
   Proof.
-    intros HS Hgs Hdiv Hown Hlen Hwf Hns.
+    intros HS Hgs Hdiv Hown Hlen Hwf. pose proof (hP_every_history_synchronised (map hentry_of H)) as Hns.
     assert (HW : forall s, s < S -> p_world (hP s) = R) by (intros; reflexivity).
     assert (WF : forall s, s < S -> wf_config (hP s)).
     { intros s Hs. unfold wf_config, hP, column_params. cbn. repeat split; [exact Hgs|exact Hdiv|]. intros b Hb. apply Hown; assumption. }
